@@ -257,6 +257,14 @@ func (p *Pool) Cmd(depth int) m.Cmd {
 		for i, n := 0, p.R.Intn(4); i < n; i++ {
 			c.Cmds = append(c.Cmds, p.Cmd(depth-1))
 		}
+		if p.R.Intn(2) == 0 {
+			// as a replication worker builds it: the commands carry increasing leader indices
+			li := p.R.Intn(50)
+			for i := range c.Cmds {
+				li += 1 + p.R.Intn(3)
+				c.Cmds[i].Sli = li + 1
+			}
+		}
 		return c
 	default:
 		return m.Cmd{T: "DUMMY"}
